@@ -357,24 +357,55 @@ pub fn discharge_big(s: &mut Solver, rw: &mut Rewriter, hyps: &[Fm], goal: &Fm, 
             return Verdict::Holds;
         }
     }
-    {
-        let mut all = Vec::new();
-        g.roots(&mut all);
-        hyps.iter().for_each(|f| f.roots(&mut all));
-        if expansion_size(&all, 4_000_000) >= 4_000_000 {
-            sh.bump(&format!("{tag}.undecided"));
-            sh.bump(&format!("{tag}.too_large_for_solver"));
-            return Verdict::Undecided("terms too large for the SMT back end".into());
+    // hypothesis selection: only hypotheses that share an atom (variable / uninterpreted
+    // application) with the goal and whose macros stay small are sent. Dropping hypotheses is
+    // sound for `unsat`; a `sat` answer under dropped hypotheses is NOT a counterexample.
+    let mut groots = Vec::new();
+    g.roots(&mut groots);
+    goal.roots(&mut groots);
+    if expansion_size(&groots, 300_000) >= 300_000 {
+        sh.bump(&format!("{tag}.undecided"));
+        sh.bump(&format!("{tag}.too_large_for_solver"));
+        return Verdict::Undecided("goal terms too large for the SMT back end".into());
+    }
+    let gatoms = atoms_of(&groots, 50_000);
+    let mut v: Vec<Fm> = Vec::new();
+    let mut dropped = 0usize;
+    for h in hyps {
+        let hc = rw.canon_fm(h);
+        for f in [h.clone(), hc] {
+            if matches!(f, Fm::True) {
+                continue;
+            }
+            let mut r = Vec::new();
+            f.roots(&mut r);
+            let small = expansion_size(&r, 100_000) < 100_000;
+            let related = atoms_of(&r, 50_000).iter().any(|a| gatoms.contains(a));
+            if small && related {
+                v.push(f);
+            } else {
+                dropped += 1;
+            }
         }
     }
-    let mut v: Vec<Fm> = hyps.to_vec();
-    v.extend(hyps.iter().map(|h| rw.canon_fm(h)).filter(|h| !matches!(h, Fm::True)));
+    let complete_hyps = dropped == 0;
     v.push(Fm::not(g));
-    // define every node once in the enclosing scope (re-sending thousands of definitions per
-    // query is what makes z3 crawl)
     let mut roots = Vec::new();
     v.iter().for_each(|f| f.roots(&mut roots));
     s.define(&roots);
+    if !complete_hyps {
+        return match s.query(&v) {
+            SatResult::Unsat => {
+                sh.bump(&format!("{tag}.unsat"));
+                sh.bump(&format!("{tag}.unsat_solver"));
+                Verdict::Holds
+            }
+            _ => {
+                sh.bump(&format!("{tag}.undecided"));
+                Verdict::Undecided("not decided with the selected hypotheses".into())
+            }
+        };
+    }
     match s.query(&v) {
         SatResult::Unsat => {
             sh.bump(&format!("{tag}.unsat"));
@@ -450,6 +481,17 @@ pub fn try_certificate(s: &mut Solver, hyps: &[Fm], goal: (H, H)) -> Option<bool
         }
     }
     None
+}
+
+/// Rewriter for very large hypothesis sets (whole-verifier runs): cheap orientation only.
+pub fn rewriter_from_fast(p: u64, hyps: &[Fm]) -> Rewriter {
+    let mut rw = Rewriter::new(p);
+    for h in hyps {
+        if let Fm::Eq(l, r) = h {
+            rw.add_eq_fast(*l, *r);
+        }
+    }
+    rw
 }
 
 /// Build a rewriter from the equalities in `hyps` (in order).
